@@ -164,16 +164,7 @@ def run(rep: Report, tier: str) -> None:
                       ("R08.4", "macro call sites match macro signatures (arity, flag order)")]:
         rep.rule(rid, text)
     # ---- R08.1 / R08.2 -----------------------------------------------------------------------------------
-    lim = macros.get("vtl_period_limit")
-    if lim is None:
-        raise AnalysisError("anchor vanished: macro vtl_period_limit")
-    body = sqlexpr.parse(lim.body)
-    sql_limits: Dict[str, Any] = {}
-    for ind in "ASQMWD":
-        try:
-            sql_limits[ind] = evalint(body, {lim.params[0]: ind, **{p: 2021 for p in lim.params[1:]}}, macros)
-        except sqlexpr.ParseError as e:
-            raise AnalysisError(f"vtl_period_limit not evaluable: {e}")
+    lim, body, sql_limits = sql_period_limits(macros)
     year_aware = {}
     for ind in "WD":
         if len(lim.params) < 2:
@@ -208,40 +199,7 @@ def run(rep: Report, tier: str) -> None:
                             f"{sql_limits[ind]} - the two implementations accept/produce different periods"))
 
     # ---- R08.3 -------------------------------------------------------------------------------------------
-    sh = macros.get("vtl_tp_shift")
-    if sh is None:
-        raise AnalysisError("anchor vanished: macro vtl_tp_shift")
-    tree = sqlexpr.parse(sh.body)
-    if tree.kind != "case" or tree.extra is None:
-        raise AnalysisError("vtl_tp_shift: CASE p.period_indicator … ELSE … shape not found")
-    year_e = struct_field(tree.extra, "year")
-    pn_e = struct_field(tree.extra, "period_number")
-    if year_e is None or pn_e is None:
-        raise AnalysisError("vtl_tp_shift: struct fields year / period_number not found in the general branch")
-    pvar, nvar = sh.params[0], sh.params[1]
-    ncell = 0
-    bad: Dict[str, Tuple[int, int, Any, Any]] = {}
-    for ind in "SQMWD":
-        L = sql_limits[ind]
-        for pn in range(1, L + 1):
-            for n in range(-60, 61):
-                env = {f"{pvar}.year": 2000, f"{pvar}.period_number": pn, f"{pvar}.period_indicator": ind, nvar: n}
-                try:
-                    y = evalint(year_e, env, macros)
-                    q = evalint(pn_e, env, macros)
-                except sqlexpr.ParseError as e:
-                    raise AnalysisError(f"vtl_tp_shift arithmetic not evaluable: {e}")
-                total = pn - 1 + n
-                want = (2000 + total // L, total % L + 1)  # Python floor semantics = calendar arithmetic
-                ncell += 1
-                if (y, q) != want and ind not in bad:
-                    bad[ind] = (pn, n, (y, q), want)
-        rep.instance("R08.3", f"shift/{ind}", nontrivial=True, sample={"indicator": ind, "limit": L, "cells": L * 121, "first_mismatch": bad.get(ind)})
-    for ind, (pn, n, got, want) in bad.items():
-        rep.add(Finding("R08.3", f"R08.3/shift/{ind}", sh.file, sh.line, "macro:vtl_tp_shift",
-                        f"timeshift of period {2000}-{ind}{pn} by {n}: the macro's arithmetic (DuckDB // truncates, % keeps the sign) gives "
-                        f"year {got[0]}, period {got[1]}; calendar arithmetic gives year {want[0]}, period {want[1]}"))
-    rep.floor("shift cells evaluated", ncell, 40000)
+    ncell = shift_cells(P, rep, "R08.3", macros, sql_limits)
 
     # ---- R08.4 -------------------------------------------------------------------------------------------
     ncalls = 0
@@ -544,3 +502,60 @@ def _time_agg_date_table(P: Program, rep: Report) -> None:
                                 + ("(the ISO week belongs to the ISO year, which differs from the calendar year around New Year)" if ind == "W" else "")))
     rep.instance("R08.8", "dates-x-indicators", sample={"evaluated": n})
     rep.floor("R08.8 evaluations", n, 1200)
+
+
+def shift_cells(P: Program, rep: Report, rule: str, macros: Dict[str, Any], sql_limits: Dict[str, Any]) -> int:
+    """vtl_tp_shift: the year carry and period-number expressions evaluated with DuckDB's integer semantics for every period number and
+    every shift in -60..60, against calendar arithmetic.  Shared with C10: a wrong carry writes an ill-formed or NULL value (2019-Q0)
+    into a non-nullable Time_Period identifier of the result."""
+    sh = macros.get("vtl_tp_shift")
+    if sh is None:
+        raise AnalysisError("anchor vanished: macro vtl_tp_shift")
+    tree = sqlexpr.parse(sh.body)
+    if tree.kind != "case" or tree.extra is None:
+        raise AnalysisError("vtl_tp_shift: CASE p.period_indicator … ELSE … shape not found")
+    year_e = struct_field(tree.extra, "year")
+    pn_e = struct_field(tree.extra, "period_number")
+    if year_e is None or pn_e is None:
+        raise AnalysisError("vtl_tp_shift: struct fields year / period_number not found in the general branch")
+    pvar, nvar = sh.params[0], sh.params[1]
+    ncell = 0
+    bad: Dict[str, Tuple[int, int, Any, Any]] = {}
+    for ind in "SQMWD":
+        L = sql_limits[ind]
+        for pn in range(1, L + 1):
+            for n in range(-60, 61):
+                env = {f"{pvar}.year": 2000, f"{pvar}.period_number": pn, f"{pvar}.period_indicator": ind, nvar: n}
+                try:
+                    y = evalint(year_e, env, macros)
+                    q = evalint(pn_e, env, macros)
+                except sqlexpr.ParseError as e:
+                    raise AnalysisError(f"vtl_tp_shift arithmetic not evaluable: {e}")
+                total = pn - 1 + n
+                want = (2000 + total // L, total % L + 1)  # Python floor semantics = calendar arithmetic
+                ncell += 1
+                if (y, q) != want and ind not in bad:
+                    bad[ind] = (pn, n, (y, q), want)
+        rep.instance(rule, f"shift/{ind}", nontrivial=True, sample={"indicator": ind, "limit": L, "cells": L * 121, "first_mismatch": bad.get(ind)})
+    for ind, (pn, n, got, want) in bad.items():
+        rep.add(Finding(rule, f"{rule}/shift/{ind}", sh.file, sh.line, "macro:vtl_tp_shift",
+                        f"timeshift of period {2000}-{ind}{pn} by {n}: the macro's arithmetic (DuckDB // truncates, % keeps the sign) gives "
+                        f"year {got[0]}, period {got[1]}; calendar arithmetic gives year {want[0]}, period {want[1]}"))
+    rep.floor(f"{rule} shift cells evaluated", ncell, 40000)
+    return ncell
+
+
+
+def sql_period_limits(macros: Dict[str, Any]):
+    """vtl_period_limit evaluated for every indicator (year 2021 for the year-aware forms): (macro, parsed body, indicator -> limit)"""
+    lim = macros.get("vtl_period_limit")
+    if lim is None:
+        raise AnalysisError("anchor vanished: macro vtl_period_limit")
+    body = sqlexpr.parse(lim.body)
+    sql_limits: Dict[str, Any] = {}
+    for ind in "ASQMWD":
+        try:
+            sql_limits[ind] = evalint(body, {lim.params[0]: ind, **{p: 2021 for p in lim.params[1:]}}, macros)
+        except sqlexpr.ParseError as e:
+            raise AnalysisError(f"vtl_period_limit not evaluable: {e}")
+    return lim, body, sql_limits
